@@ -120,7 +120,7 @@ func (m absModule) String() string {
 }
 
 func allAbsModules(two bool) []absModule {
-	out := []absModule{{kind: "absent"}, {kind: "omitted"}, {kind: "wrong-id"}, {kind: "level-without-status"}}
+	out := []absModule{{kind: "absent"}, {kind: "omitted"}, {kind: "wrong-id"}, {kind: "level-without-status"}, {kind: "level-plus-256"}, {kind: "level-plus-65536"}, {kind: "only-level-plus-65536"}}
 	var ones []absIsv
 	for _, rel := range []int{-1, 0, 1} {
 		for st := range world.Statuses {
@@ -164,6 +164,11 @@ func (m absModule) apply(w *world.World) {
 		}
 	case "level-without-status": // the matching module level carries no tcbStatus member: not UpToDate
 		w.Tcb.Mods = []world.ModIdent{{ID: id, Levels: []world.IsvLevel{{Isv: uint32(p.TeeTcb[0]), NoStatus: true}, {Isv: 0, Status: "UpToDate"}}}}
+	case "level-plus-256", "level-plus-65536": // a level number is a JSON number: k*256 + v and k*65536 + v are above the module's one-byte isvsvn
+		big := map[string]uint32{"level-plus-256": 256, "level-plus-65536": 65536}[m.kind] + uint32(p.TeeTcb[0])
+		w.Tcb.Mods = []world.ModIdent{{ID: id, Levels: []world.IsvLevel{{Isv: big, Status: "UpToDate"}, {Isv: 0, Status: "OutOfDate"}}}}
+	case "only-level-plus-65536":
+		w.Tcb.Mods = []world.ModIdent{{ID: id, Levels: []world.IsvLevel{{Isv: 65536 + uint32(p.TeeTcb[0])/2, Status: "UpToDate"}}}}
 	case "levels":
 		var ls []world.IsvLevel
 		for _, l := range m.levels {
